@@ -45,7 +45,17 @@ R = Run('tocimxmlstr -> minidom -> SAX -> TupleParser round trip, second round t
         'all 3^5 qualifier flavor/propagated, 3^4 x scopes and all 2^7 scope subsets; property kinds x class_origin '
         'x propagated x array_size x reference_class x qualifiers; 4 parameter kinds; methods; classes; instances '
         'with 4 path kinds; name case and child order permutations; embedded instance/class chains depth 0..3 x '
-        'array x entity/CDATA; seeded random object trees (quick 500, thorough 16000)')
+        'array x entity/CDATA; seeded random object trees (quick 500, thorough 16000); array shapes: every array '
+        'over {a (falsy: 0/False/empty/zero interval), b, NULL} incl. [], [NULL], [NULL, NULL], repeated NULLs and '
+        'repeated values, compared entry by entry through a shape code, in 12 carriers (PROPERTY.ARRAY, instance '
+        'property, class property default + its qualifier, property two embedded instances deep, class default in '
+        'an embedded class, QUALIFIER, QUALIFIER.DECLARATION, bare VALUE.ARRAY, CIMParameter PARAMVALUE, '
+        'InvokeMethod request via Params= and via keyword, InvokeMethod output parameter) x 17 kinds (14 types, '
+        'reference, embedded instance, embedded object): quick = length <= 4 for string/boolean/uint8/embedded '
+        'instance/reference in every carrier and for every kind in PROPERTY.ARRAY and PARAMVALUE, length <= 2 for '
+        'the other pairs; thorough = length <= 5 everywhere + CDATA mode; SEND_VALUE_NULL=False for every shape '
+        'with a NULL (quick: length <= 3, boolean 2, 4 in PROPERTY.ARRAY/PARAMVALUE), modelled as documented (empty VALUE '
+        'per NULL entry on the wire)')
 
 TP = TupleParser()
 
